@@ -45,7 +45,7 @@ func keyLike(r *rand.Rand, n int) ([]byte, string) {
 
 func c05(c *wk.Ctx) {
 	idx := 0
-	maxBlocks := c.Pick(64, 1024)
+	maxBlocks := c.Pick(256, 4096)
 	// ---- 1. block loop vs the IGE definition, every block count, several keys each
 	reps := c.Pick(6, 24)
 	for nb := 1; nb <= maxBlocks; nb++ {
@@ -89,7 +89,7 @@ func c05(c *wk.Ctx) {
 		}
 	}
 	// ---- 3. message-level wrappers Encrypt / Decrypt
-	maxMsg := c.Pick(600, 5000)
+	maxMsg := c.Pick(2048, 16384)
 	for n := 1; n <= maxMsg; n++ {
 		if c.Mine(idx) {
 			r := c.Rand(idx)
@@ -101,7 +101,7 @@ func c05(c *wk.Ctx) {
 		idx++
 	}
 	// ---- 4. key-exchange wrappers, every payload length (so every residue of (20+len) mod 16)
-	maxPay := c.Pick(512, 4096)
+	maxPay := c.Pick(1024, 4096)
 	reps = c.Pick(2, 6)
 	for n := 0; n <= maxPay; n++ {
 		for rep := 0; rep < reps; rep++ {
